@@ -295,7 +295,18 @@ func jobsFor(prop, tier string) []Job {
 			add("itermut", fmt.Sprintf("itermut.btree%d", m), 8, map[string]string{"c": "btree"}, map[string]int{"m": m, "n": pick(8, 11), "rank": 1})
 		}
 	case "C18":
-		for _, jb := range allContainerJobs(q) {
+		c18jobs := allContainerJobs(q)
+		// large containers (a scratch structure shared by readers may exist only above some size: after seeded
+		// change C18-14, which needs a heap of >= 192 elements): one fill history, the reader passes at sizes
+		// 64, 128, 192, .. and at the bound (c18.go largeReadersJob)
+		ln := pick(200, 300)
+		for _, c := range []string{"binaryheap", "priorityqueue", "arraylist", "singlylinkedlist", "doublylinkedlist", "arraystack", "linkedliststack", "arrayqueue", "linkedlistqueue", "linkedhashset", "linkedhashmap", "hashset"} {
+			add("largereaders", "pure."+c+".large", 30, map[string]string{"c": c}, map[string]int{"n": ln, "deep": 1, "every": 64})
+			add("largereaders", "race."+c+".large", 40, map[string]string{"c": c, "binary": "race"}, map[string]int{"n": ln, "deep": 1, "every": 64, "gomaxprocs": 4, "reps": 1})
+		}
+		add("largereaders", "pure.circularbuffer.large", 30, map[string]string{"c": "circularbuffer"}, map[string]int{"n": ln, "cap": ln, "deep": 1, "every": 64})
+		add("largereaders", "race.circularbuffer.large", 40, map[string]string{"c": "circularbuffer", "binary": "race"}, map[string]int{"n": ln, "cap": ln, "deep": 1, "every": 64, "gomaxprocs": 4, "reps": 1})
+		for _, jb := range c18jobs {
 			// pass 1 + 3 (plain binary)
 			pp := map[string]int{}
 			for k, v := range jb.p {
@@ -427,6 +438,9 @@ func jsonFamilyJobs(q bool, add func(kind, id string, w int, s map[string]string
 // element and key types at their limits (typed.go); plain searches under the family oracles.
 func typedJobs(group string, add func(kind, id string, w int, s map[string]string, p map[string]int)) {
 	els := []string{"i8", "i64", "u64"}
+	if group == "trees" || group == "hashmaps" || group == "bidi" {
+		els = append(els, "u8", "sk")
+	}
 	for _, el := range els {
 		switch group {
 		case "trees":
@@ -617,6 +631,21 @@ func jsonContainerJobs(q bool, n, u int) []cjob {
 		js = append(js, cjob{c + ".ov", 2, map[string]string{"c": c, "elem": "ov"}, map[string]int{"n": min(n, 3), "u": 3, "vu": 3}})
 	}
 	js = append(js, cjob{"circularbuffer2.ov", 2, map[string]string{"c": "circularbuffer", "elem": "ov"}, map[string]int{"cap": 2, "u": 3}})
+	// sized / unsigned integer types at their limits, and an integer key type with a String() method (typed.go);
+	// uint8 and SK as map keys only
+	for _, el := range []string{"i8", "i64", "u64", "u8", "sk"} {
+		for _, c := range []string{"hashmap", "linkedhashmap", "treemap", "rbt", "avl", "hashbidimap", "treebidimap"} {
+			js = append(js, cjob{c + "." + el, 2, map[string]string{"c": c, "elem": el}, map[string]int{"u": min(u, 4), "vu": 2}})
+		}
+		js = append(js, cjob{"btree3." + el, 2, map[string]string{"c": "btree", "elem": el}, map[string]int{"m": 3, "u": min(u, 4)}})
+		if el == "u8" || el == "sk" {
+			continue
+		}
+		for _, c := range []string{"arraylist", "linkedlistqueue", "binaryheap", "hashset", "linkedhashset", "treeset"} {
+			js = append(js, cjob{c + "." + el, 2, map[string]string{"c": c, "elem": el}, map[string]int{"n": min(n, 3), "u": 3, "jsonlen": 2}})
+		}
+		js = append(js, cjob{"circularbuffer2." + el, 2, map[string]string{"c": "circularbuffer", "elem": el}, map[string]int{"cap": 2, "u": 3}})
+	}
 	js = append(js, cjob{"btree3.ov", 2, map[string]string{"c": "btree", "elem": "ov"}, map[string]int{"m": 3, "u": 3, "vu": 3}})
 	for m := 3; m <= 6; m++ {
 		bu := u + 2
